@@ -1,20 +1,366 @@
-import XV.Model.Sandbox
+import XV.Lemmas.Sandbox
 /-!
 C10 — sandbox: read-your-writes, exact range scans, sound replayable read/write set.
+
+Property theorems only (helper lemmas live in `XV/Lemmas/Sandbox.lean`).  Every theorem quantifies
+over all programs `ops` of `Get / Put / Del / Select(bounds, early stop)` run from the empty sandbox
+(`State.init`) over every consistent backing reader `r` (`Reader.WF`: MemXModel, the reader built
+from a read set, and the ledger's XModel all are).  `fixed` is the strip configuration of the
+repaired code, `orig` that of the code before the `fix:` commits; the full statements are refuted for
+`orig` from concrete witnesses (the replays in corpus/C10).
 -/
 namespace XV.C10
 open XV.Sandbox
 
-theorem find_ins_same (k : Key) (v : VData) (l : KV) : find k (ins k v l) = some v := by
-  induction l with
-  | nil => simp [ins, find]
-  | cons e r ih =>
-    unfold ins
-    split
-    · simp [find]
-    · split
-      · simp [find]
-      · rename_i h1 h2
-        simp [find, h2, ih]
+/-- the sandbox after running a program from scratch -/
+abbrev after (c : Cfg) (r : Reader) (ops : List Op) : State := (run c r State.init ops).1
+
+theorem reachable_inv (c : Cfg) (r : Reader) (hr : r.WF) (ops : List Op) : Inv r (after c r ops) :=
+  run_inv c hr ops State.init (Inv.init r)
+
+/-! ### write set -/
+
+/-- The write set holds, for every key, exactly the final value written by the program
+(`0` = delete mark), and nothing for a key the program never wrote. -/
+theorem wset_final (r : Reader) (hr : r.WF) (ops : List Op) (b : Bucket) (k : Key) :
+    (after fixed r ops).outputs.get b k = (lastWrite b k ops).map (fun v => ⟨0, v⟩) := by
+  unfold after
+  rw [run_outputs fixed hr b k ops State.init (Inv.init r)]
+  cases lastWrite b k ops with
+  | some v => rfl
+  | none => simp [State.init, Store.empty, Store.get, find]
+
+/-! ### read your writes -/
+
+/-- A read observes the latest preceding write or delete of the execution, else the underlying
+state (where a deleted or never-written key is absent). -/
+theorem read_your_writes (r : Reader) (hr : r.WF) (ops : List Op) (b : Bucket) (k : Key) :
+    (get r (after fixed r ops) b k).2.toOpt =
+      match lastWrite b k ops with
+      | some v => if v = 0 then none else some v
+      | none => backView r b k := by
+  rw [get_spec (reachable_inv fixed r hr ops) b k]
+  unfold view
+  rw [wset_final r hr ops b k]
+  cases lastWrite b k ops with
+  | none => rfl
+  | some v =>
+    by_cases hv : v = 0
+    · simp [hv, VData.isDel]
+    · simp [hv, VData.isDel]
+
+/-! ### read set -/
+
+/-- Every entry of the read set is the entry (value and version) the reader holds for that key; and
+a `Get` that is not answered from the write set leaves the reader's entry in the read set. -/
+theorem rset_sound (r : Reader) (hr : r.WF) (ops : List Op) :
+    (∀ b k d, (after fixed r ops).inputs.get b k = some d → r.get b k = some d) ∧
+    (∀ b k d, (after fixed r ops).outputs.get b k = none → r.get b k = some d →
+      (get r (after fixed r ops) b k).1.inputs.get b k = some d) :=
+  ⟨(reachable_inv fixed r hr ops).faithful,
+   fun b k d ho hd => get_recorded_value (reachable_inv fixed r hr ops) b k d ho hd⟩
+
+/-- Outside the transient bucket every written key has been looked up: it is in the read set unless
+the reader itself refused the key (`ErrNotFound`, only MemXModel does that). -/
+theorem wset_subset_rset_partial (r : Reader) (hr : r.WF) (ops : List Op) (b : Bucket) (k : Key)
+    (hb : b ≠ transient) (hw : (after fixed r ops).outputs.get b k ≠ none) :
+    (after fixed r ops).inputs.get b k ≠ none ∨ r.get b k = none := by
+  suffices h : ∀ (ops : List Op) (s : State), Inv r s →
+      (s.outputs.get b k ≠ none → s.inputs.get b k ≠ none ∨ r.get b k = none) →
+      ((run fixed r s ops).1.outputs.get b k ≠ none →
+        (run fixed r s ops).1.inputs.get b k ≠ none ∨ r.get b k = none) by
+    exact h ops State.init (Inv.init r) (by simp [State.init, Store.empty, Store.get, find]) hw
+  intro ops
+  induction ops with
+  | nil => intro s _ h; exact h
+  | cons op ops ih =>
+    intro s hi h
+    rw [run_cons]
+    apply ih _ (step_inv fixed hr hi op)
+    intro hw1
+    have keep : s.inputs.get b k ≠ none ∨ r.get b k = none →
+        (stepOp fixed r s op).1.inputs.get b k ≠ none ∨ r.get b k = none := by
+      rintro (h1 | h1)
+      · left
+        cases hd : s.inputs.get b k with
+        | none => exact absurd hd h1
+        | some d => rw [step_mono fixed hr hi op b k d hd]; simp
+      · exact Or.inr h1
+    rw [step_outputs fixed hr hi op b k] at hw1
+    cases hwo : writeOf b k op with
+    | none => rw [hwo] at hw1; exact keep (h hw1)
+    | some v =>
+      -- the op writes `b/k`: `Put` has looked the key up first
+      have hput : ∀ v', (put r s b k v').inputs.get b k ≠ none ∨ r.get b k = none := by
+        intro v'
+        rw [put_inputs_eq_get]
+        simp only [hb, if_false]
+        rcases get_records r s b k with g | g | g
+        · exact Or.inl g
+        · rcases h g with g' | g'
+          · left
+            cases hd : s.inputs.get b k with
+            | none => exact absurd hd g'
+            | some d => rw [(get_reach r s b k).mono b k d hd]; simp
+          · exact Or.inr g'
+        · exact Or.inr g
+      cases op with
+      | get b' k' => simp [writeOf] at hwo
+      | sel b' lo hiB n => simp [writeOf] at hwo
+      | put b' k' v' =>
+        simp only [writeOf] at hwo
+        by_cases hbk : b' = b ∧ k' = k
+        · obtain ⟨rfl, rfl⟩ := hbk; exact hput v'
+        · simp [hbk] at hwo
+      | del b' k' =>
+        simp only [writeOf] at hwo
+        by_cases hbk : b' = b ∧ k' = k
+        · obtain ⟨rfl, rfl⟩ := hbk; exact hput 0
+        · simp [hbk] at hwo
+
+/-- Over a reader whose `Get` never fails (the ledger's XModel answers a never-written key with an
+empty version) the write set — transient bucket aside — only holds keys that are in the read set. -/
+theorem wset_subset_rset (r : Reader) (hr : r.WF) (htotal : ∀ b k, r.get b k ≠ none) (ops : List Op)
+    (b : Bucket) (k : Key) (hb : b ≠ transient) (hw : (after fixed r ops).outputs.get b k ≠ none) :
+    (after fixed r ops).inputs.get b k ≠ none := by
+  rcases wset_subset_rset_partial r hr ops b k hb hw with h | h
+  · exact h
+  · exact absurd h (htotal b k)
+
+/-- the statement without a hypothesis on the reader -/
+def wset_subset_rset_statement : Prop :=
+  ∀ (r : Reader), r.WF → ∀ (ops : List Op) (b : Bucket) (k : Key), b ≠ transient →
+    (after fixed r ops).outputs.get b k ≠ none → (after fixed r ops).inputs.get b k ≠ none
+
+/-- It fails over an empty MemXModel: `Put` drops the `ErrNotFound` of its forced `Get`, so the
+written key never reaches the read set.  (Not reachable in production: the first execution runs over
+XModel, whose `Get` is total, and the verifying execution runs over a read set that by
+`wset_subset_rset` holds every written key.) -/
+theorem wset_subset_rset_counterexample : ¬ wset_subset_rset_statement := by
+  intro h
+  have := h (memReader Store.empty) (memReader_wf _ (fun _ => by simp [Store.empty, Sorted]))
+    [.put 1 0 5] 1 0 (by decide) (by decide)
+  exact this (by decide)
+
+/-! ### range scans -/
+
+/-- `Select(b, lo, hi)` consumed by `n` calls of `Next` yields the first `n` entries of the list `L`
+that holds exactly the live keys of `[lo, hi)` in increasing key order, where live means: the latest
+write of this execution if there is one (a deleted key is not live), else the underlying state
+(deleted and never-written keys are not live). -/
+def select_exact_statement (c : Cfg) : Prop :=
+  ∀ (r : Reader), r.WF → ∀ (ops : List Op) (b : Bucket) (lo : Nat) (hi : Option Nat),
+    badRange lo hi = false →
+    ∃ L : List (Key × Nat), Sorted L ∧
+      (∀ k v, (k, v) ∈ L ↔ (inRange lo hi k = true ∧ view r (after c r ops) b k = some v)) ∧
+      ∀ n, (select c r (after c r ops) b lo hi n).2 = some (L.take n)
+
+theorem mem_outputs_iff {s : State} {r : Reader} (hi : Inv r s) (b : Bucket) (k : Key) (d : VData) :
+    (k, d) ∈ s.outputs b ↔ s.outputs.get b k = some d :=
+  ⟨fun h => mem_find_of_sorted (hi.sortedOut b) h, fun h => find_some_mem h⟩
+
+theorem select_exact : select_exact_statement fixed := by
+  intro r hr ops b lo hi hok
+  have hi' := reachable_inv fixed r hr ops
+  refine ⟨(selList fixed r (after fixed r ops) b lo hi).map (fun e => (e.1, e.2.val)), ?_, ?_, ?_⟩
+  · exact List.Pairwise.map _ (fun _ _ h => h) (sorted_selList fixed hr hi' b lo hi)
+  · intro k v
+    simp only [List.mem_map, Prod.mk.injEq]
+    constructor
+    · rintro ⟨e, he, rfl, rfl⟩
+      rw [mem_selList_fixed hr hi'] at he
+      obtain ⟨h1, h2⟩ := he
+      refine ⟨h1, ?_⟩
+      unfold view
+      rcases h2 with ⟨h2, h3⟩ | ⟨h2, h3, h4⟩
+      · rw [(mem_outputs_iff hi' b e.1 e.2).mp h2]; simp [h3]
+      · rw [show (after fixed r ops).outputs.get b e.1 = none from find_none_iff.mpr h2]
+        simp only [backView, hr.selGet b e.1 e.2 h3, h4.1, h4.2]
+        simp
+    · rintro ⟨h1, h2⟩
+      unfold view at h2
+      cases ho : (after fixed r ops).outputs.get b k with
+      | some d =>
+        rw [ho] at h2
+        by_cases hd : d.isDel = true
+        · simp [hd] at h2
+        · simp only [hd, if_false, Bool.false_eq_true] at h2
+          refine ⟨(k, d), ?_, rfl, Option.some.inj h2⟩
+          rw [mem_selList_fixed hr hi']
+          exact ⟨h1, Or.inl ⟨(mem_outputs_iff hi' b k d).mpr ho, by simpa using hd⟩⟩
+      | none =>
+        rw [ho] at h2
+        unfold backView at h2
+        cases hg : r.get b k with
+        | none => rw [hg] at h2; simp at h2
+        | some d =>
+          rw [hg] at h2
+          by_cases hd : (d.isEmptyVer || d.isDel) = true
+          · simp [hd] at h2
+          · simp only [hd, if_false, Bool.false_eq_true] at h2
+            have hlive : live d := by
+              simp only [Bool.or_eq_true, not_or] at hd
+              exact ⟨by simpa using hd.2, by simpa using hd.1⟩
+            refine ⟨(k, d), ?_, rfl, Option.some.inj h2⟩
+            rw [mem_selList_fixed hr hi']
+            refine ⟨h1, Or.inr ⟨find_none_iff.mp ho, ?_, hlive⟩⟩
+            rcases hr.getSel b k d hg with h | h | h
+            · exact h
+            · rw [hlive.1] at h; exact absurd h (by simp)
+            · rw [hlive.2] at h; exact absurd h (by simp)
+  · intro n
+    rw [(select_spec fixed r _ b lo hi n hr hi' hok).1, List.map_take]
+
+/-- a reader holding key 0 of bucket 1 -/
+def r1 : Reader := memReader (fun b => if b = 1 then [(0, ⟨1, 5⟩)] else [])
+
+theorem r1_wf : r1.WF :=
+  memReader_wf _ (fun b => by by_cases h : b = 1 <;> simp [h, Sorted])
+
+/-- Before the repair the statement is false: after `Del(k)` the scan yields `k` with the delete
+mark as its value (corpus/C10/select-yields-deleted.ops). -/
+theorem select_exact_orig_counterexample : ¬ select_exact_statement orig := by
+  intro h
+  obtain ⟨L, _, hL, hn⟩ := h r1 r1_wf [.del 1 0] 1 0 none rfl
+  have h1 : (select orig r1 (after orig r1 [.del 1 0]) 1 0 none 5).2 = some [(0, 0)] := by decide
+  rw [hn 5] at h1
+  have hm : ((0, 0) : Key × Nat) ∈ L := by
+    have : ((0, 0) : Key × Nat) ∈ L.take 5 := by rw [Option.some.inj h1]; simp
+    exact List.mem_of_mem_take this
+  have := ((hL 0 0).mp hm).2
+  revert this
+  decide
+
+/-- The read set after an early-stopped scan is sound for what was consumed: with `res` the items
+yielded by `n` calls of `Next`, (1) every read-set entry is the reader's entry, (2) every entry the
+reader iterates from `lo` up to the last consumed key is in the read set with its version, or is
+shadowed by a write of this execution, and (3) if the scan ran to its end the same holds for the
+whole range.  (The look-ahead of the iterator stack may record more — never less.) -/
+theorem select_early_stop_rset (r : Reader) (hr : r.WF) (ops : List Op) (b : Bucket) (lo : Nat)
+    (hi : Option Nat) (n : Nat) (res : List (Key × Nat))
+    (hres : (select fixed r (after fixed r ops) b lo hi n).2 = some res) :
+    let s2 := (select fixed r (after fixed r ops) b lo hi n).1
+    (∀ b' k d, s2.inputs.get b' k = some d → r.get b' k = some d) ∧
+    (∀ kv ∈ res, ∀ x ∈ r.sel b, lo ≤ x.1 → x.1 ≤ kv.1 →
+      s2.inputs.get b x.1 = some x.2 ∨ s2.outputs.get b x.1 ≠ none) ∧
+    (res.length < n → ∀ x ∈ r.sel b, inRange lo hi x.1 = true →
+      s2.inputs.get b x.1 = some x.2 ∨ s2.outputs.get b x.1 ≠ none) := by
+  intro s2
+  have hi' := reachable_inv fixed r hr ops
+  have hok : badRange lo hi = false := by
+    cases hb : badRange lo hi with
+    | false => rfl
+    | true => rw [select_bad _ _ _ _ _ _ _ hb] at hres; simp at hres
+  obtain ⟨a1, a2, a3, a4⟩ := select_spec fixed r _ b lo hi n hr hi' hok
+  have hs2 : Inv r s2 := a2.inv hi'
+  have conv : ∀ x ∈ r.sel b, Rec r s2 b x.1 →
+      s2.inputs.get b x.1 = some x.2 ∨ s2.outputs.get b x.1 ≠ none := by
+    intro x hx hrec
+    have hg := hr.selGet b x.1 x.2 hx
+    rcases hrec with h | h | h
+    · left
+      cases hv : s2.inputs.get b x.1 with
+      | none => exact absurd hv h
+      | some d' => have := hs2.faithful b x.1 d' hv; rw [hg] at this; rw [this]
+    · exact Or.inr h
+    · rw [hg] at h; exact absurd h (by simp)
+  rw [a1] at hres
+  have hres' := Option.some.inj hres
+  refine ⟨hs2.faithful, ?_, ?_⟩
+  · intro kv hkv x hx hlo hle
+    rw [← hres'] at hkv
+    obtain ⟨e, he, rfl⟩ := List.mem_map.mp hkv
+    have heL := List.mem_of_mem_take he
+    rw [mem_selList_fixed hr hi'] at heL
+    have hin : inRange lo hi x.1 = true := by
+      have := heL.1
+      simp only [inRange, Bool.and_eq_true, decide_eq_true_eq] at this ⊢
+      refine ⟨hlo, ?_⟩
+      cases hi with
+      | none => rfl
+      | some h => simp only [decide_eq_true_eq] at this ⊢; simp only at hle; omega
+    exact conv x hx (a4 e he x (mem_rangeOf.mpr ⟨hx, hin⟩) hle)
+  · intro hlen x hx hin
+    rw [← hres', List.length_map] at hlen
+    exact conv x hx (a3 hlen x (mem_rangeOf.mpr ⟨hx, hin⟩))
+
+/-! ### re-running over the read set -/
+
+/-- Re-running the same program from scratch over `XMReaderFromRWSet` of the first run's read set
+gives the same result for every call and the same write set. -/
+def replay_deterministic_statement (c : Cfg) : Prop :=
+  ∀ (r : Reader), r.WF → ∀ (ops : List Op),
+    (run c (readerFromRWSet (after c r ops)) State.init ops).2 = (run c r State.init ops).2 ∧
+    (run c (readerFromRWSet (after c r ops)) State.init ops).1.outputs = (after c r ops).outputs
+
+theorem replay_deterministic : replay_deterministic_statement fixed := by
+  intro r hr ops
+  have hi' := reachable_inv fixed r hr ops
+  exact replay_aux hr (after fixed r ops).inputs hi'.sortedIn hi'.faithful ops State.init State.init
+    (Inv.init r) (Inv.init _) rfl (fun _ _ _ h => h)
+
+/-- the ledger's XModel holding nothing -/
+def rx : Reader := xmodelReader Store.empty Store.empty
+
+theorem rx_wf : rx.WF :=
+  ⟨fun _ => by simp [rx, xmodelReader, Store.empty, Sorted],
+   fun _ _ _ h => by simp [rx, xmodelReader, Store.empty] at h,
+   fun b k d h => by
+     simp only [rx, xmodelReader, Store.empty, find] at h
+     cases h
+     exact Or.inr (Or.inr rfl)⟩
+
+/-- Before the repair the statement is false: a scan followed by a lookup of a never-written key of
+the scanned range; the re-run over the read set yields that key as a phantom
+(corpus/C10/replay-diverges-sel.ops). -/
+theorem replay_deterministic_orig_counterexample : ¬ replay_deterministic_statement orig := by
+  intro h
+  have := (h rx rx_wf [.sel 1 0 none 9, .get 1 2]).1
+  revert this
+  decide
+
+/-! ### non-vacuity: the hypotheses are met by non-trivial states and the conclusions are not empty -/
+
+/-- XModel-like reader: key 0 live, key 1 deleted, key 2 never written, key 3 live -/
+def rDemo : Reader :=
+  xmodelReader (fun b => if b = 1 then [(0, ⟨1, 5⟩), (3, ⟨3, 7⟩)] else [])
+    (fun b => if b = 1 then [(1, ⟨2, 0⟩)] else [])
+
+/-- the demo reader meets the hypothesis `Reader.WF` of the theorems -/
+theorem rDemo_wf : rDemo.WF := by
+  refine ⟨fun b => ?_, fun b k d h => ?_, fun b k d h => ?_⟩
+  · by_cases hb : b = 1 <;> simp [rDemo, xmodelReader, hb, Sorted]
+  · by_cases hb : b = 1
+    · subst hb
+      simp only [rDemo, xmodelReader, if_true, List.mem_cons, Prod.mk.injEq, List.not_mem_nil, or_false] at h ⊢
+      rcases h with ⟨rfl, rfl⟩ | ⟨rfl, rfl⟩ <;> simp [find]
+    · simp [rDemo, xmodelReader, hb] at h
+  · by_cases hb : b = 1
+    · subst hb
+      simp only [rDemo, xmodelReader, if_true, find] at h ⊢
+      by_cases h0 : k = 0
+      · subst h0; simp at h; subst h; simp
+      · by_cases h3 : k = 3
+        · subst h3; simp at h; subst h; simp
+        · by_cases h1 : k = 1
+          · subst h1; simp at h; subst h; exact Or.inr (Or.inl rfl)
+          · simp [h0, h3, h1] at h; subst h; exact Or.inr (Or.inr rfl)
+    · simp only [rDemo, xmodelReader, hb, if_false, find] at h
+      cases h; exact Or.inr (Or.inr rfl)
+
+def demoOps : List Op := [.get 1 2, .get 1 1, .put 1 4 9, .del 1 0, .sel 1 0 none 1]
+
+-- the scan after the program: key 0 deleted by the execution, 1 deleted in the ledger, 2 never
+-- written (but in the read set), 3 live, 4 written by the execution
+example : (select fixed rDemo (after fixed rDemo demoOps) 1 0 none 9).2 = some [(3, 7), (4, 9)] := by decide
+example : (select fixed rDemo (after fixed rDemo demoOps) 1 0 none 1).2 = some [(3, 7)] := by decide
+-- the unrepaired stack on the same state yields the deleted key and the phantom
+example : (select orig rDemo (after orig rDemo demoOps) 1 0 none 9).2 = some [(0, 0), (2, 1), (3, 7), (4, 9)] := by decide
+example : lastWrite 1 0 demoOps = some 0 ∧ lastWrite 1 4 demoOps = some 9 ∧ lastWrite 1 3 demoOps = none := by decide
+example : (get rDemo (after fixed rDemo demoOps) 1 4).2 = .val 9 ∧ (get rDemo (after fixed rDemo demoOps) 1 0).2 = .hasDel
+    ∧ (get rDemo (after fixed rDemo demoOps) 1 3).2 = .val 7 := by decide
+-- the read set is non-empty and the re-run agrees
+example : ((after fixed rDemo demoOps).inputs 1).length = 5 := by decide
+example : (run fixed (readerFromRWSet (after fixed rDemo demoOps)) State.init demoOps).2 = (run fixed rDemo State.init demoOps).2 := by decide
 
 end XV.C10
